@@ -1,4 +1,4 @@
-//go:build pC01 || pC02 || pC07 || pC08 || pC09 || pall
+//go:build pC01 || pC02 || pC07 || pC08 || pC09 || pC16 || pall
 
 package main
 
